@@ -4,6 +4,7 @@ package props
 import (
 	"encoding/json"
 	"fmt"
+	"os"
 	"time"
 
 	"verif/harness/core"
@@ -23,6 +24,9 @@ func register(d *Def) { Registry[d.ID] = d }
 // and folds statistics into the check. Model-level errors (invariant
 // violations in the *spec*) make the check broken, never a violation.
 func streamTLC(c *core.Check, r core.TLCRun, handle func(core.State)) core.TLCStats {
+	if os.Getenv("VERIF_STAGE") == "deep" { // development aid: run only the MC_E1Deep stage of a check
+		return core.TLCStats{}
+	}
 	stats, err := r.Stream(0, func(st core.State) {
 		if rec, p := core.Guard(func() { handle(st) }); p {
 			c.Broken("replayer panic outside guarded region: %v", rec)
@@ -63,3 +67,42 @@ func replayRaw(c *core.Check, vector json.RawMessage, handle func(*core.Check, c
 func minutes(n int) time.Duration { return time.Duration(n) * time.Minute }
 
 var _ = fmt.Sprintf
+
+// deepE1 runs the bushy / deep expression generator MC_E1Deep in TLC's simulation mode and feeds
+// every state in which the expression under construction changed to handle (the states have the
+// shape of MC_E1 states, so the MC_E1 replayers consume them). Model-level invariants are checked
+// by TLC on every visited state when needPred is set.
+func deepE1(c *core.Check, needPred bool, handle func(core.State)) {
+	perWorker, depth, maxD := 100, 10, "5"
+	if c.Tier == "thorough" {
+		perWorker, depth, maxD = 6000, 14, "7"
+	}
+	consts := map[string]string{"MaxD": maxD, "Level2": "\"all\"", "NParts": "1", "Part": "0", "NeedPred": "TRUE"}
+	cfg := "MC_E1Deep.cfg"
+	if !needPred {
+		consts["NeedPred"] = "FALSE"
+		cfg = "MC_E1Deep_nopred.cfg"
+	}
+	c.Extra["deep_constants"] = map[string]any{"MaxD": maxD, "behaviours_per_worker": perWorker, "depth": depth, "seed": c.Seed}
+	r := core.TLCRun{Module: "MC_E1Deep", Cfg: cfg, Consts: consts, Depth: depth, Seed: c.Seed, Workers: 10, Timeout: minutes(40),
+		KeepVars: []string{"e", "pred", "last", "fv"}}
+	stats, err := r.StreamSim(0, perWorker, []string{"e"}, false, func(st core.State) {
+		c.Count("deep_vectors", 1)
+		if rec, p := core.Guard(func() { handle(st) }); p {
+			c.Broken("replayer panic outside guarded region (deep vector): %v", rec)
+		}
+	})
+	c.AddTLC(core.TLCStats{Distinct: stats.Generated, Generated: stats.Generated})
+	c.Count("deep_behaviours", stats.Distinct)
+	if err != nil {
+		c.Broken("TLC simulation MC_E1Deep: %v", err)
+		return
+	}
+	switch stats.ErrorKind {
+	case "invariant", "property":
+		c.Broken("TLC simulation MC_E1Deep: model-level %s violation (spec drift, not a code verdict): %s", stats.ErrorKind, stats.ErrorMsg)
+	}
+	if stats.Dumped == 0 {
+		c.Broken("TLC simulation MC_E1Deep produced no vectors")
+	}
+}
